@@ -1,5 +1,6 @@
 // C10 — reserved feature bits are refused at every entry point; enabled ones work (feature-admission model).
 #include "gen.hpp"
+#include "wrap.hpp"
 #include <thread>
 using namespace vf;
 
@@ -10,7 +11,20 @@ static int popcount3(unsigned a) { return (a & 1) + ((a >> 1) & 1) + ((a >> 2) &
 // case: calls(hex of 4-byte LE arguments to enable_features; empty = default state is only valid right after start, so at least one call is always made)
 //       f (0..31) hi(0/1: OR 0xFFFFFFE0 into the create argument) secret birthday coin lang badcheck(0/1)
 static bool g_enable_called = false;
+static std::string oracle_inner(const Case& c);
+// In the --wrap build the process environment is part of the input: every variable the library might ask for holds a generated value, and asking is itself noted.
 static std::string oracle(const Case& c) {
+#ifdef VERIF_WRAP
+    auto& w = deps::wrap(); w.enabled = true; w.api = true; w.foreign_calls = 0; w.env_fake = deps::env_value(c.u("env"));
+    std::string m = oracle_inner(c);
+    w.api = false; w.env_fake = nullptr; w.enabled = false;
+    if (w.foreign_calls) W().ev.count("foreign-source-consulted");
+    return m;
+#else
+    return oracle_inner(c);
+#endif
+}
+static std::string oracle_inner(const Case& c) {
     deps::Kit& k = deps::kit(0); k.reset_all(); Evidence& ev = W().ev;
     if (c.get("kind") == "default") { // state before any enabling call: no user feature is enabled
         if (g_enable_called) return "";
@@ -97,12 +111,12 @@ static void run() {
     std::vector<unsigned> argsv; for (unsigned i = 0; i < 8; i++) argsv.push_back(i);
     for (unsigned v : {8u, 16u, 24u}) argsv.push_back(v);
     for (unsigned kx = 0; kx < 8; kx++) { argsv.push_back(0xF8u | kx); argsv.push_back(0xFFFFFFF8u | kx); }
-    { Case c; c.set("kind", "default"); set_current(c); std::string m = oracle(c); if (!m.empty() && enum_fail(c, m)) return; }
+    { Case c; c.set("kind", "default"); c.set("env", 1); set_current(c); std::string m = oracle(c); if (!m.empty() && enum_fail(c, m)) return; }
     uint64_t idx = 0, done = 0;
     for (unsigned arg : argsv) for (unsigned f = 0; f < 32; f++) for (int hi = 0; hi < 2; hi++) for (int l = 0; l < 2; l++) {
         if ((int)(idx++ % (uint64_t)a.nworkers) != a.worker) continue;
         Case c; c.set("calls", hex(le32s(arg))); c.set("f", f); c.set("hi", (uint64_t)hi); c.set("secret", hex(std::string(19, (char)(0x11 * (f % 15) + arg)))); c.set("birthday", (f * 33 + arg) % 1024); c.set("coin", (f * 67 + arg * 3) % 2048);
-        c.set("lang", REG->at((a.seed + f + arg + (unsigned)l * 5) % REG->size()).name_en); c.set("badcheck", 1);
+        c.set("lang", REG->at((a.seed + f + arg + (unsigned)l * 5) % REG->size()).name_en); c.set("badcheck", 1); c.set("env", (uint64_t)((f + arg + hi) % 8));
         set_current(c); std::string m = oracle(c); done++; if (!m.empty() && enum_fail(c, m)) return;
     }
     ev.enumerated["enable argument (27 values) x feature value (32) x create-argument high bits (2) x 2 languages, four entry points each"] += done;
@@ -114,7 +128,7 @@ static void run() {
         int n = *in_range<int>(1, 7); std::string calls;
         for (int i = 0; i < n; i++) calls += le32s(*rc::gen::weightedOneOf<unsigned>({{5, in_range<unsigned>(0, 8)}, {1, rc::gen::map(vf::u64(), [](uint64_t x) { return (unsigned)x; })}, {1, rc::gen::map(in_range<unsigned>(0, 8), [](unsigned x) { return x | 0xFFFFFFF8u; })}}));
         Case c; c.set("calls", hex(calls)); c.set("f", *in_range<unsigned>(0, 32)); c.set("hi", *in_range<unsigned>(0, 2)); c.set("secret", hex(*g::secret19())); c.set("birthday", (uint64_t)*g::birthday()); c.set("coin", (uint64_t)*g::coin());
-        c.set("lang", REG->at(*g::lang_index()).name_en); c.set("badcheck", *in_range<unsigned>(0, 2)); if (*in_range<int>(0, 32) == 0) c.set("reinject", 1); if (*in_range<int>(0, 8) == 0) c.set("late", *in_range<unsigned>(0, 3000)); if (*in_range<int>(0, 16) == 0) c.set("otherthread", 1);
+        c.set("lang", REG->at(*g::lang_index()).name_en); c.set("badcheck", *in_range<unsigned>(0, 2)); if (*in_range<int>(0, 32) == 0) c.set("reinject", 1); if (*in_range<int>(0, 8) == 0) c.set("late", *in_range<unsigned>(0, 3000)); if (*in_range<int>(0, 16) == 0) c.set("otherthread", 1); c.set("env", *in_range<unsigned>(0, 8));
         set_current(c); std::string m = oracle(c); if (!m.empty()) VF_FAIL(c, m);
     });
 }
